@@ -324,6 +324,14 @@ Proof.
 Qed.
 Hint Resolve set_heartbeat_all_k : rxk.
 
+Lemma resync_heartbeats_k k r i : KNOW (resync_heartbeats k r i) (same_rx r (resync_heartbeats k r i)).
+Proof.
+  constructor. revert r i. induction k as [|k IH]; intros r i; cbn [resync_heartbeats]; [finr|].
+  assert (IH' : forall r i, KNOW (resync_heartbeats k r i) (same_rx r (resync_heartbeats k r i))) by (intros; constructor; apply IH).
+  crack; try (match goal with |- context [resync_heartbeats k ?x ?j] => abs_one (resync_heartbeats k x j) end); finr.
+Qed.
+Hint Resolve resync_heartbeats_k : rxk.
+
 (* ---- Open, the pieces of ParseMessages around the loop ---- *)
 Lemma start_claim_all_k k r i : KNOW (start_claim_all k r i) (rq2 r (start_claim_all k r i)).
 Proof.
@@ -337,7 +345,7 @@ Proof. constructor. unfold rflush. crack; finr. Qed.
 Hint Resolve rflush_k : rxk.
 End WithGF.
 #[export] Hint Resolve gf_k handle_system_k send_pending_info_dev_k send_pending_info_k with_devx_k send_heartbeat_dev_k send_heartbeat_k
-  set_heartbeat_all_k start_claim_all_k rflush_k : rxk.
+  set_heartbeat_all_k resync_heartbeats_k start_claim_all_k rflush_k : rxk.
 Ltac abs_rn ::=
   repeat match goal with
   | |- context [set_dev_tp ?r ?i ?a ?b ?c] => abs_one (set_dev_tp r i a b c)
@@ -349,6 +357,7 @@ Ltac abs_rn ::=
   | |- context [with_devinfo_changed ?r] => abs_one (with_devinfo_changed r)
   | |- context [set_pending ?r ?i ?a ?b ?c] => abs_one (set_pending r i a b c)
   | |- context [set_heartbeat_all ?k ?r ?i ?a ?b] => abs_one (set_heartbeat_all k r i a b)
+  | |- context [resync_heartbeats ?k ?r ?i] => abs_one (resync_heartbeats k r i)
   | |- context [with_devx ?r ?i ?x] => abs_one (with_devx r i x)
   end.
 
